@@ -85,7 +85,7 @@ func main() {
 	setGoEnv()
 	switch os.Args[1] {
 	case "warm":
-		for _, fl := range []string{"vtime", "plain", "sched"} {
+		for _, fl := range warmFlavours {
 			if _, err := buildWorker(fl, false); err != nil {
 				die(2, "build %s: %v", fl, err)
 			}
